@@ -19,7 +19,7 @@ use mdb_shard::session_directory::consolidate_shards_in_directory;
 use mdb_shard::set_operations::{shard_file_difference, shard_file_union, shard_set_difference, shard_set_union};
 use mdb_shard::shard_file_reconstructor::FileReconstructor;
 use mdb_shard::shard_in_memory::MDBInMemoryShard;
-use mdb_shard::streaming_shard::{process_shard_stream, MDBMinimalShard};
+use mdb_shard::streaming_shard::{process_shard_stream, process_shard_stream_async, MDBMinimalShard};
 use mdb_shard::{MDBShardFile, MDBShardInfo, ShardFileManager};
 use merklehash::{compute_data_hash, MerkleHash};
 use rand::seq::SliceRandom;
@@ -533,6 +533,58 @@ fn scan_all(ids: &mut Ids, out: &mut Out, sid: &str, bytes: &[u8]) {
         Ok(Err(e)) => out.ev("ShError", json!({"sid": sid, "what": format!("stream {e:?}")})),
         Err(p) => out.ev("ShPanic", json!({"sid": sid, "what": p})),
     }
+    drop(ids_cell);
+    // the asynchronous variants of the streaming and the minimal reader, fed in pieces of 1..64 bytes (short reads)
+    let sizes: Vec<usize> = (0..17).map(|k| 1 + (k * 37 + bytes.len()) % 64).collect();
+    let mut files = vec![];
+    let mut xorbs = vec![];
+    let ids_cell = std::cell::RefCell::new(&mut *ids);
+    let r = guarded(|| {
+        futures::executor::block_on(process_shard_stream_async(
+            &mut crate::drivers::xorb::PieceReader::new(bytes, &sizes),
+            Some(|v: mdb_shard::file_structs::MDBFileInfoView| {
+                let fi = MDBFileInfo {
+                    metadata: v.header().clone(),
+                    segments: (0..v.num_entries()).map(|j| v.entry(j)).collect(),
+                    verification: if v.contains_verification() { (0..v.num_entries()).map(|j| v.verification(j)).collect() } else { vec![] },
+                    metadata_ext: None,
+                };
+                let mut j = file_json(&mut ids_cell.borrow_mut(), &fi);
+                j["sha"] = json!([-1, -1]);
+                files.push(j);
+                Ok(())
+            }),
+            Some(|v: mdb_shard::cas_structs::MDBCASInfoView| {
+                let c = MDBCASInfo { metadata: v.header().clone(), chunks: (0..v.num_entries()).map(|j| v.chunk(j)).collect() };
+                xorbs.push(cas_json(&mut ids_cell.borrow_mut(), &c));
+                Ok(())
+            }),
+        ))
+    });
+    match r {
+        Ok(Ok(())) => out.ev("ShScan", json!({"sid": sid, "reader": "stream_async", "files": files, "xorbs": xorbs})),
+        Ok(Err(e)) => out.ev("ShError", json!({"sid": sid, "what": format!("stream_async {e:?}")})),
+        Err(p) => out.ev("ShPanic", json!({"sid": sid, "what": p})),
+    }
+    drop(ids_cell);
+    match guarded(|| futures::executor::block_on(MDBMinimalShard::from_reader_async(&mut crate::drivers::xorb::PieceReader::new(bytes, &sizes), true, true))) {
+        Ok(Ok(ms)) => {
+            let same = guarded(|| MDBMinimalShard::from_reader(&mut Cursor::new(bytes), true, true)).ok().and_then(|r| r.ok()).map(|m2| m2 == ms).unwrap_or(false);
+            let mut again = vec![];
+            match guarded(|| ms.serialize(&mut again).map(|_| ())) {
+                Ok(Ok(())) => match guarded(|| listing(ids, &again)) {
+                    Ok(Ok(l)) if same => out.ev("ShScan", json!({"sid": sid, "reader": "minimal_reser", "via": "async", "files": l["files"], "xorbs": l["xorbs"], "materialized": l["materialized"], "stored": l["stored"]})),
+                    Ok(Ok(_)) => out.ev("ShError", json!({"sid": sid, "what": "minimal reader: async and sync results differ"})),
+                    Ok(Err(e)) => out.ev("ShError", json!({"sid": sid, "what": format!("minimal async re-serialized: {e}")})),
+                    Err(p) => out.ev("ShPanic", json!({"sid": sid, "what": p})),
+                },
+                Ok(Err(e)) => out.ev("ShError", json!({"sid": sid, "what": format!("minimal async serialize {e:?}")})),
+                Err(p) => out.ev("ShPanic", json!({"sid": sid, "what": p})),
+            }
+        },
+        Ok(Err(e)) => out.ev("ShError", json!({"sid": sid, "what": format!("minimal async {e:?}")})),
+        Err(p) => out.ev("ShPanic", json!({"sid": sid, "what": p})),
+    }
 }
 
 fn run_lookup(ctl: &Arc<Ctl>, rng: &mut Rng_, ids: &mut Ids, out: &mut Out, n: usize) {
@@ -692,7 +744,25 @@ fn run_dedup(rng: &mut Rng_, ids: &mut Ids, out: &mut Out, n: usize, rt: &tokio:
                     }
                 }
             }
-            mgr.flush().await.map_err(|e| format!("{e:?}"))?;
+            // every file record added so far is found through the manager, before and after the final flush
+            for phase in ["before_flush", "after_flush"] {
+                for m in models.iter() {
+                    for f in &m.files {
+                        match mgr.get_file_reconstruction_info(&f.h).await {
+                            Ok(Some((fi, _))) => out.ev("ShMgrLookup", json!({"phase": phase, "sids": present, "h": ids.h(&f.h), "res": "hit", "rec": file_json(ids, &fi)})),
+                            Ok(None) => out.ev("ShMgrLookup", json!({"phase": phase, "sids": present, "h": ids.h(&f.h), "res": "none", "rec": {}})),
+                            Err(e) => out.ev("ShError", json!({"what": format!("{e:?}")})),
+                        }
+                    }
+                }
+                if phase == "before_flush" {
+                    mgr.flush().await.map_err(|e| format!("{e:?}"))?;
+                }
+            }
+            let nreg = mgr.registered_shard_list().await.map(|l| l.len()).unwrap_or(0);
+            let all = mgr.all_file_info().await.map(|v| v.len()).unwrap_or(0);
+            let nfiles: HashSet<[u8; 32]> = models.iter().flat_map(|m| m.files.iter().map(|f| hb(&f.h))).collect();
+            out.ev("ShMgrEnd", json!({"registered": nreg, "all_file_info": all, "distinct_files": nfiles.len()}));
             Ok(())
         });
         if let Err(e) = r {
@@ -967,6 +1037,21 @@ fn run_keyed(ctl: &Arc<Ctl>, rng: &mut Rng_, ids: &mut Ids, out: &mut Out, n: us
                     },
                     Ok(Err(e)) => out.ev("ShError", json!({"what": format!("export: {e:?}")})),
                     Err(p) => out.ev("ShPanic", json!({"what": format!("export: {p}")})),
+                }
+                // the streaming variant of the export (reader -> writer, no shard handle)
+                let src_bytes = std::fs::read(&p).unwrap();
+                let mut outb = vec![];
+                let r = guarded(|| MDBShardInfo::export_as_keyed_shard_streaming(&mut Cursor::new(&src_bytes), &mut outb, *key, Duration::from_secs(1000), inc_f, inc_c, inc_k));
+                match r {
+                    Ok(Ok(_)) => match listing(ids, &outb) {
+                        Ok(l) => out.ev("ShExport", json!({"src": m.sid, "out": format!("{sid}s"),
+                            "expect_xorbs": m.xorbs.iter().map(|x| json!({"h": ids.h(&x.h), "chunks": x.chunks.iter().map(|c| json!([ids.h(&if *key == zero { c.0 } else { keyed(&c.0, key) }), c.1])).collect::<Vec<_>>()})).collect::<Vec<_>>(), "key": if *key == zero { json!(0) } else { ids.h(key)[1].clone() },
+                            "incl_file": inc_f, "incl_cas": inc_c, "incl_chunk": inc_k, "files": l["files"], "xorbs": l["xorbs"], "out_key": l["key"],
+                            "n_file_lookup": l["n_file_lookup"], "n_cas_lookup": l["n_cas_lookup"], "n_chunk_lookup": l["n_chunk_lookup"]})),
+                        Err(e) => out.ev("ShError", json!({"what": format!("streaming export unreadable: {e}")})),
+                    },
+                    Ok(Err(e)) => out.ev("ShError", json!({"what": format!("streaming export: {e:?}")})),
+                    Err(p) => out.ev("ShPanic", json!({"what": format!("streaming export: {p}")})),
                 }
             }
         }
